@@ -223,6 +223,17 @@ class VLoop(asyncio.SelectorEventLoop):
         await asyncio.sleep(0)          # a real endpoint creation takes at least one loop iteration
         key = tuple(remote_addr)
         owner = self.owners.get(key, key[0])
+        # opening the datagram endpoint can fail too (connect() on a UDP socket consults the routing table: no route while the
+        # interface is down, EACCES from a packet filter); scripted through the same per-owner outcome list as TCP connects
+        script = self.connect_scripts.get(owner)
+        act = script.pop(0) if script else "ok"
+        if isinstance(act, (tuple, list)):
+            act = act[0]
+        if act != "ok":
+            self.ev("connect", owner, act, 0.0)
+            if act == "perm":
+                raise PermissionError(errno.EACCES, "injected: permission denied")
+            raise OSError(errno.ENETUNREACH, "injected: network unreachable")
         a, b = socket.socketpair(socket.AF_UNIX, socket.SOCK_DGRAM)
         a.setblocking(False)
         b.setblocking(False)
